@@ -695,9 +695,23 @@ impl Rig {
         }
         let hub_gone = fate.is_some();
         for w in self.workers.iter_mut() {
+            // the worker's loop ends as soon as its channel is closed; give a loaded machine some time
+            let t0 = Instant::now();
+            while w.join.as_ref().map(|j| !j.is_finished()).unwrap_or(false) && t0.elapsed() < wait {
+                std::thread::sleep(Duration::from_millis(2));
+            }
+            let mut worker_gone = true;
             if let Some(j) = w.join.take() {
                 if j.is_finished() {
                     let _ = j.join();
+                } else {
+                    worker_gone = false; // leaked thread: its descriptors stay open
+                }
+            }
+            if worker_gone {
+                // ScmSocket does not own its descriptor (the worker's Server is dropped by now)
+                unsafe {
+                    libc::close(w.scm_worker_fd);
                 }
             }
             if hub_gone {
